@@ -121,6 +121,8 @@ def clock_premise(F, fn, b):
 
 def question_some(F, fn, b):
     """question.unwrap(): every call chain from handle_query reaches this function below the Some arm."""
+    if 'question' not in paths.show_operand(fn, fn.blocks[b]['term']['args'][0]):
+        return False, 'not an unwrap of the question'
     hq = F.fn(HANDLE_QUERY)
     calls = [(bb, t) for bb, t in hq.calls() if callee_name(t) == HANDLE_NON_AXFR]
     ok = len(calls) == 1 and _guard(hq, calls[0][0], r'^discr\(arg2\.question\) in \[1\]$|^discr\(arg2\.question\) not in \[0\]$')
@@ -140,6 +142,8 @@ def wrong_zone_premise(F, fn, b):
             if not ok: s.bad.append(key)
             return ok
         def floor(s, *a, **k): pass
+    if not any(re.match(r'^discr\(Zone::lookup(_all)?\(', g) for g in paths.direct_guards(fn, b)):
+        return False, 'not an arm of the zone lookup result'
     r = Rr()
     c05.check_lookup_options(r, F)
     lb = F.fn('db::hash_map_tree::zone::HashMapTreeZone::lookup_base')
@@ -200,6 +204,9 @@ def reservation_premise(F, fn, b):
     """The OPT / TSIG appends of finish_with_mac cannot fail and `available + reservation` cannot overflow: exactly the
     reserved amounts are given back right before the appends (C02 reservation rules, re-run here), and reservations were
     made under `cursor + amount <= available` (Writer invariant rule)."""
+    t_ = fn.blocks[b]['term']
+    if t_['k'] == 'call' and 'Writer::add_rr(' not in paths.show_operand(fn, t_['args'][0]):
+        return False, 'not the result of an add_rr call'
     r = _Collect()
     c02.reservation_rules(r, F)
     ok2, det = writer_inv.reservation_premise(F, fn, b)
@@ -209,6 +216,9 @@ def reservation_premise(F, fn, b):
 def cursor_after_slot(F, fn, b):
     """add_rr: `self.cursor - rdlength_start - 2`.  rdlength_start is the cursor read just before `cursor += 2`; every
     store to cursor that can execute afterwards inside add_rr (directly or in callees) adds a non-negative amount."""
+    t0 = fn.blocks[b]['term']
+    if 'cursor' not in paths.show_operand(fn, t0['ops'][0]):
+        return False, 'minuend does not derive from the cursor'
     st = [(bb, i, s_) for f_, bb, i, s_ in e5.field_stores(F, writer_inv.WTY, 'cursor', scope=lambda g: g.gpath == fn.gpath)]
     slot = [(bb, i, s_) for bb, i, s_ in st if paths.show_operand(fn, s_['rv']['op']) == 'Add(arg1.cursor,2_usize)']
     t = fn.blocks[b]['term']
